@@ -1614,14 +1614,14 @@ func (p *Parser) parseIdentifierArrowFunc(v *Var) (arrowFunc *ArrowFunc) {
 	prevAwait, prevYield := p.await, p.yield
 	p.await, p.yield = false, false
 
-	if 1 < v.Uses {
-		v.Uses--
-		v, _ = p.scope.Declare(ArgumentDecl, parse.Copy(v.Data)) // cannot fail
-	} else {
-		// if v.Uses==1 it must be undeclared and be the last added
-		p.scope.Parent.Undeclared = p.scope.Parent.Undeclared[:len(p.scope.Parent.Undeclared)-1]
+	if n := len(p.scope.Parent.Undeclared); v.Uses == 1 && 0 < n && p.scope.Parent.Undeclared[n-1] == v {
+		// if v.Uses==1 it must be undeclared and be the last added (checked, because Uses wraps around after 65535 uses)
+		p.scope.Parent.Undeclared = p.scope.Parent.Undeclared[:n-1]
 		v.Decl = ArgumentDecl
 		p.scope.Declared = append(p.scope.Declared, v)
+	} else {
+		v.Uses--
+		v, _ = p.scope.Declare(ArgumentDecl, parse.Copy(v.Data)) // cannot fail
 	}
 
 	arrowFunc.Params.List = []BindingElement{{v, nil}}
